@@ -531,6 +531,9 @@ def run(ctx):
     _c13.r13_1_bytes_forms(ctx)  # the `method` pseudo-op holds the signature text itself, so the selector is the one the contract advertises (shared with C13)
 
     _c12.r12_2b_named_ints(ctx)  # OnCompletion names keep their AVM numbers when constants are assembled (shared with C12)
+    from rules import c15 as _c15
+
+    _c15.r15_10_router_results_pairing(ctx)  # the approval text / map is the approval program's, the clear-state one the clear-state program's (shared with C15)
     return (
         "Abstract evaluation of the router's construction code (MethodConfig.approval_cond, BareCallActions.approval_construction, wrap_handler, to_cond_node, "
         "program_construction, _build_program) on symbolic handlers; the constructed condition/dispatch trees are interpreted by a small reference semantics of Cond/Seq/Assert "
